@@ -29,9 +29,8 @@ func (e *exec) symFields(id int) map[int]string {
 
 // Adaptive generator: the next step is chosen knowing which instances exist in the REAL interpreter
 // (the recorded history is what gets replayed / given to the model; nothing else is fed back).
-//   clean: only symbol keys, no untyped arrays on the routes that do not recover a Go panic, every struct
-//          declared before it is decoded, no write to an instance after it took part in a derefSet copy
-//   dirty: everything (non-symbol keys, untyped arrays everywhere, decode before declaration)
+//   clean: only symbol keys, every struct declared before it is decoded, no write to an instance after it took part in a derefSet copy
+//   dirty: everything (non-symbol keys, decode before declaration)
 //   alias: writes after a derefSet copy (CloneFrom shares the bucket arrays)
 type gen struct {
 	r      *lib.Rng
@@ -207,7 +206,7 @@ func (g *gen) random(depth int) *value {
 	}
 }
 
-// does evaluating / checking the value dereference a nil type (Go panic in TypeCheckField / SliceOf)?
+// a non-empty array whose first element has no type of its own (tag only)
 func crashy(v *value) bool {
 	if v.kind != 'A' || len(v.arr) == 0 {
 		return false
@@ -249,9 +248,6 @@ func (g *gen) valueFor(decl []fdecl, f int, recovered bool, limit int) *value {
 			v = g.typed(ft, 0)
 		} else {
 			v = g.random(0)
-		}
-		if crashy(v) && !recovered && g.mode != "dirty" && tries < 50 {
-			continue
 		}
 		if !refsBelow(v, limit) {
 			if tries < 50 {
